@@ -105,6 +105,8 @@ def pool_dwarf():
     bc = "d:" + common.hx(os.path.join(t, "bitcount.o"))
     for k in range(2):
         P.append(("%s,%s" % (bc, q("[entry @AT_location] elem ?%d" % k)), "lle"))
+    for k in range(4):
+        P.append(("%s,%s" % (bc, q("[entry @AT_location elem] elem ?%d" % k)), "llo"))
     return P
 
 
